@@ -133,7 +133,7 @@ impl Divan {
         // When run under `cargo-nextest`, it provides `--list --format terse`.
         // We don't currently accept this action under any other circumstances.
         if action.is_list_terse() {
-            self.run_tree_list(&tree, "");
+            self.run_tree_list(&tree, "", None);
             return;
         }
 
@@ -187,17 +187,42 @@ impl Divan {
     /// Emits the entries in `tree` for the purpose of `--list --format terse`.
     ///
     /// This only happens when running under `cargo-nextest` (`NEXTEST=1`).
-    fn run_tree_list(&self, tree: &[EntryTree], parent_path: &str) {
+    fn run_tree_list(
+        &self,
+        tree: &[EntryTree],
+        parent_path: &str,
+        parent_options: Option<&BenchOptions>,
+    ) {
         let mut full_path = String::with_capacity(parent_path.len());
 
         for child in tree {
-            let ignore = child
-                .bench_options()
-                .and_then(|options| options.ignore)
-                .unwrap_or_default();
+            let child_options = child.bench_options();
 
-            if self.should_ignore(ignore) {
-                continue;
+            // Overwrite `parent_options` with `child_options` if applicable,
+            // exactly like `run_tree`, so that `ignore` is inherited from (and
+            // can be overridden within) groups.
+            let options: BenchOptions;
+            let options: Option<&BenchOptions> =
+                match (parent_options, child_options) {
+                    (None, None) => None,
+                    (Some(options), None) | (None, Some(options)) => {
+                        Some(options)
+                    }
+                    (Some(parent_options), Some(child_options)) => {
+                        options = child_options.overwrite(parent_options);
+                        Some(&options)
+                    }
+                };
+
+            // Only benchmarks are ignored, not the groups that contain them.
+            if let EntryTree::Leaf { .. } = child {
+                let ignore = options
+                    .and_then(|options| options.ignore)
+                    .unwrap_or_default();
+
+                if self.should_ignore(ignore) {
+                    continue;
+                }
             }
 
             full_path.clear();
@@ -219,7 +244,7 @@ impl Divan {
                     }
                 }
                 EntryTree::Parent { children, .. } => {
-                    self.run_tree_list(children, &full_path)
+                    self.run_tree_list(children, &full_path, options)
                 }
             }
         }
